@@ -27,7 +27,7 @@ package cache
 //@   modifies fsMtime, failBudget, clock
 //@   ensures old(failBudget) == 0 && old(fsExists)[file] ==> fsMtime[file] > old(clock) - hour()
 //@   ensures forall p int {fsMtime[p]} :: p != sid(file) ==> fsMtime[p] == old(fsMtime)[p]
-//@   ensures clock >= old(clock) && (old(failBudget) == 0 ==> failBudget == 0)
+//@   ensures clock >= old(clock) && (old(failBudget) == 0 ==> failBudget == 0) && failBudget <= old(failBudget)
 
 //@ func (*Cache).OutputFile
 //@   requires c != nil
@@ -80,6 +80,7 @@ package cache
 
 //@ func get$1
 //@   names (e, err)
+//@   modifies nothing
 //@   ensures err != nil && isType(err, entryNotFoundError)
 
 // get: every index/slice of the 176-byte buffer and both hex.Decode calls are in
@@ -88,6 +89,8 @@ package cache
 //@ func (*Cache).get
 //@   names (e, err)
 //@   requires c != nil
+//@   modifies fdPath, fdMode, fdClosed, fsMtime, failBudget, clock, bytes, H_Str
+//@   ensures failBudget <= old(failBudget)
 //@   at call io.ReadFull#1: bind ebuf = buf, rdN = n
 //@   at call (*cache.Cache).used#1: requires true
 //@   loop 1: invariant 0 <= i && i <= len(esize)
@@ -116,3 +119,76 @@ package cache
 //@   requires c != nil
 //@   ensures err == nil ==> fsSize[file] == entry.Size && fsExists[file]
 //@   ensures err != nil ==> isType(err, entryNotFoundError)
+
+// ---- C11 / C12: the store side ----
+//@ property C12: (*Cache).put, (*Cache).copyFile, (*Cache).putIndexEntry, (*Cache).fileName
+//@ property C11: (*Cache).putIndexEntry, (*Cache).copyFile, (*Cache).put, (*Cache).get, get$1, (*Cache).GetBytes, (*Cache).GetFile, (*Cache).used, (*Cache).fileName, (*Cache).OutputFile, (*Cache).Get
+
+// cache-local step contracts: truncating to zero or removing a file sets the ghost
+// clean-up flag of its path; sources, hashes and writers are abstract.
+//@ extern (*os.File).Write(f, b) (n, err)
+//@   modifies fsData, fsSize, fsBytes, fsWrites
+//@ extern (*os.File).WriteString(f, s) (n, err)
+//@   modifies fsData, fsSize, fsBytes, fsWrites
+//@ extern (*os.File).Close(f) (err)
+//@   modifies fdMode, fdClosed
+//@ extern crypto/sha256.New() (h)
+//@   pure
+//@   ensures h != nil
+//@ extern io.Copy(dst, src) (written, err)
+//@   modifies nothing
+//@   ensures written >= 0
+//@ extern io.CopyN(dst, src, n) (written, err)
+//@   modifies fsData, fsSize, fsBytes, fsWrites
+//@ extern io.MultiWriter(writers) (w)
+//@   pure
+//@   ensures w != nil
+//@ extern (io.ReadSeeker).Seek(s, offset, whence) (pos, err)
+//@   pure
+//@ extern (io.ReadSeeker).Read(s, p) (n, err)
+//@   modifies bytes
+//@ extern (hash.Hash).Sum(h, b) (r)
+//@   modifies new bytes
+//@ extern (hash.Hash).Write(h, p) (n, err)
+//@   pure
+//@ extern time.Now() (t)
+//@   pure
+//@ extern (time.Time).UnixNano(t) (r)
+//@   pure
+
+// putIndexEntry: the entry file is opened without O_TRUNC (a rewrite of equal content
+// never empties it), truncated to its length only after a successful write, and an
+// error is returned only after trying to remove the entry.
+//@ func reverseHash
+//@   trusted
+//@   pure
+//@ func (*Cache).putIndexEntry
+//@   requires c != nil
+//@   allowpanic
+//@   callee c.now() (r): modifies clock
+//@   at call os.OpenFile#1: requires flag & 512 == 0 && flag & 64 == 64
+//@   at call (*os.File).Truncate#1: requires err == nil
+//@   at call os.Remove#1: requires err != nil && sameStr(name, file)
+//@   ensures result != nil && gOpenErr == nil ==> gCleanup[gFile] || failBudget < old(failBudget)
+//@   at call os.OpenFile#1: bind gOpenErr = err, gFile = name
+//@   at call (*cache.Cache).get#1: requires true
+
+// copyFile: the committing last byte is written only after the hash of everything
+// copied was compared with the expected output id; once the output file has been
+// opened for writing, an error is returned only after the file was truncated to zero
+// length or removed.
+//@ func (*Cache).copyFile
+//@   requires c != nil
+//@   callee c.now() (r): modifies clock
+//@   at call os.OpenFile#1: bind gOpenErr = err, gFile = name
+//@   at call bytes.Equal#1: bind gHashOK = r
+//@   at call (*os.File).Write#1: requires gHashOK
+//@   at call os.OpenFile#1: requires sameStr(name, my_name)
+//@   ensures result != nil && gOpenErr == nil ==> gCleanup[gFile] || failBudget < old(failBudget)
+
+// put: the index entry is written only after the output file is in place, with the
+// output id and size computed by this call; a failed copy returns its error.
+//@ func (*Cache).put
+//@   requires c != nil
+//@   at call (*cache.Cache).copyFile#1: bind gCopyErr = result
+//@   at call (*cache.Cache).putIndexEntry#1: requires gCopyErr == nil && out == my_out && size == my_size && id == my_id
